@@ -277,6 +277,17 @@ func Build(v sb.V) interface{} {
 		return NilEmbIface{X: 1}
 	case "embednil:safe":
 		return NilEmbSafe{X: 1}
+	case "dagarr":
+		// the same sharing through pointers to arrays
+		var g stick.Value = &[1]stick.Value{"leaf"}
+		for i := 0; i < 40; i++ {
+			g = &[2]stick.Value{g, g}
+		}
+		return g
+	case "cyclicarr":
+		a := &[1]stick.Value{}
+		a[0] = a
+		return a
 	case "embednil:time":
 		// String, MarshalJSON, ... are promoted from the nil *time.Time
 		return NilEmbTime{Name: "launch"}
